@@ -121,6 +121,7 @@ func RunC02(c *Ctx, r *Report) {
 	for _, fn := range []*ssa.Function{a.DecodeDecrypt, a.decryptMsg, a.verifyIntegrity, a.calculateIntegrity, a.decryptPayload} {
 		r.Func(c.FuncName(fn))
 	}
+	c.unprotectGateRule(r, prefix+"unprotect-gate", a)
 	isDecryptInvoke := func(call *ssa.Call) bool {
 		if !call.Call.IsInvoke() || call.Call.Method.Name() != "Decrypt" {
 			return false
